@@ -330,4 +330,40 @@ theorem tie_struct_info_cache :
   refine ⟨by decide, ?_, by decide, by decide, by decide, fun _ _ _ => rfl⟩
   decide
 
+/-- **The literal tables**: the words `parseBoolGenerous` accepts (after ToLower ∘ TrimSpace; anything else is an
+    error) are the model's `trueWords` / `falseWords`; the tag parser splits at `,` and drops `omitempty`; the bracket
+    reader knows `[`, `]` and the two quotes; a prefix getter extends keys with `.` - the literals of `parseTag`,
+    `extractBracketKey`, `Getter.push` / `Getter.has`. -/
+theorem tie_literal_tables :
+    parseBool_arms.map (fun a => (a.1.map B, a.2)) = [(trueWords, "true"), (falseWords, "false")] ∧
+    parseBool_defaultIsError = true ∧ parseBool_prep = ["ToLower", "TrimSpace"] ∧
+    parseTag_literals.filter (· != "") = [",", "omitempty"] ∧
+    (extractBracketKey_literals.filter (· != "")).eraseDups = ["[", "]", "\"'"] ∧
+    prefixGetter_Has_literals = [".", "."] ∧
+    (trueWords.all (fun w => parseBool w == some true) && falseWords.all (fun w => parseBool w == some false)) = true := by
+  decide
+
+/-- what the option `name` assigns -/
+def optOf (name : String) : List String := (optionWrites.filter (·.1 == name)).map (·.2)
+
+/-- the configuration field a write goes to -/
+def fieldOfWrite (w : String) : String := String.mk (w.toList.takeWhile (· != '='))
+
+/-- **Every option the cases use assigns exactly the configuration field the limit checks / the conversion read**
+    (`WithMaxDepth` → `maxDepth`, `WithMaxSliceLen` → `maxSliceLen`, `WithMaxMapSize` → `maxMapSize` - the fields of the
+    guards of `tie_depth_check_before_descent`, `tie_slice_limit_before_alloc`, `tie_map_limit_before_insert` -,
+    `WithSliceMode` → `sliceMode`, `WithIntBaseAuto` → `intBaseAuto`, `WithTimeLayouts` → `timeLayouts` as given,
+    `WithAllErrors` → `allErrors`, `WithUnknownFields` / `WithStrictJSON` → `unknownFields`), no option writes two
+    different fields, and `clone()` - the per-call configuration of a Binder - copies the whole struct and re-makes its
+    two reference-typed fields. -/
+theorem tie_option_writes :
+    optOf "WithMaxDepth" = ["maxDepth=$0"] ∧ optOf "WithMaxSliceLen" = ["maxSliceLen=$0"] ∧
+    optOf "WithMaxMapSize" = ["maxMapSize=$0"] ∧ optOf "WithSliceMode" = ["sliceMode=$0"] ∧
+    optOf "WithIntBaseAuto" = ["intBaseAuto=true"] ∧ optOf "WithTimeLayouts" = ["timeLayouts=$0"] ∧
+    optOf "WithAllErrors" = ["allErrors=true"] ∧ optOf "WithUnknownFields" = ["unknownFields=$0"] ∧
+    optOf "WithStrictJSON" = ["->WithUnknownFields(UnknownError)"] ∧
+    optionWrites.all (fun w => (optOf w.1).all (fun v => fieldOfWrite v == fieldOfWrite w.2)) = true ∧
+    clone_copiesStruct = true ∧ ["sources", "typeConverters"].all clone_deepFields.contains = true := by
+  decide
+
 end Rivaas.Tie.C04Bind
